@@ -72,7 +72,12 @@ def worker(args):
             # no other session exists: nothing can have changed the rows behind this session's back, so a
             # failing optimistic check (or an internal error) can only come from the order of the writes
             small = sx.shrink(hist, lambda h: (lambda y: y.obs[-1] == ('exc', exc) and all(q[0] == 'ok' for q in y.obs[:-1]))(env.run(h, fixture)))
-            sub.violation('%s|%s|flush-fails-with-%s' % (rel, sx.kinds(small), exc),
+            sig = '%s|%s|flush-fails-with-%s' % (rel, sx.kinds(small), exc)
+            deleted = set(op[1] for op in small if op[0] == 'delete')
+            if any(op[0] == 'objflush' and op[1] in deleted for op in small):
+                # one defect, one name: obj.flush() of a deleted object sends its DELETE before the queued updates of its dependents
+                sig = 'obj.flush()-of-deleted-object|later-flush-fails-with-%s' % exc
+            sub.violation(sig,
                           dict(model=name, fixture=fixture, history=small, error=msg),
                           'flush of an orderable set of writes failed: %s: %s' % (exc, msg[:200]))
         elif exc == 'UnresolvableCyclicDependency':
